@@ -110,4 +110,47 @@ def discFn (pop : List Prov) (props : List DProp) (funcRes : Nat → Nat → Pro
   | "append...", [.list a, .list b], w => some (.list (a ++ b), w)
   | _, _, _ => none
 
+/-! equation lemmas of `discFn`, one per primitive (unfolding the 40-way string match inside `simp` is too expensive) -/
+section eqs
+variable (pop : List Prov) (props : List DProp) (fr : Nat → Nat → Prov → Bool) (fnm : Nat → Prov → Bool) (isa : Val → Val → Option Val)
+theorem discFn_injectTag (w : DW) : discFn pop props fr fnm isa "$definition.InjectTag" [] w = some (.str "wire", w) := rfl
+theorem discFn_funcTag (w : DW) : discFn pop props fr fnm isa "$definition.FuncTag" [] w = some (.str "func", w) := rfl
+theorem discFn_rPointer (w : DW) : discFn pop props fr fnm isa "$reflect.Pointer" [] w = some (.str "ptr", w) := rfl
+theorem discFn_rPtr (w : DW) : discFn pop props fr fnm isa "$reflect.Ptr" [] w = some (.str "ptr", w) := rfl
+theorem discFn_rInterface (w : DW) : discFn pop props fr fnm isa "$reflect.Interface" [] w = some (.str "iface", w) := rfl
+theorem discFn_Tag (i : Nat) (w : DW) : discFn pop props fr fnm isa ".Tag" [.ref i 20] w = some (.str (props.getD i .dflt).tag, w) := rfl
+theorem discFn_TagVal (i : Nat) (w : DW) : discFn pop props fr fnm isa ".TagVal" [.ref i 20] w =
+    some (if (props.getD i .dflt).tagEmpty then .str "" else .tuple [.str "tagval", .int i], w) := rfl
+theorem discFn_Type (i : Nat) (w : DW) : discFn pop props fr fnm isa ".Type" [.ref i 20] w = some (encKind (props.getD i .dflt).kind, w) := rfl
+theorem discFn_Kind (a k : Nat) (w : DW) : discFn pop props fr fnm isa ".Kind" [.ref a k] w = some (.str (kindName k), w) := rfl
+theorem discFn_isActual (t k : Val) (w : DW) : discFn pop props fr fnm isa "isActualKind" [t, k] w = (isa t k).map (·, w) := rfl
+theorem discFn_cType (t : Nat) (w : DW) : discFn pop props fr fnm isa "container.Type" [.ref t 80] w = some (.tuple [.str "type", .int t], w) := rfl
+theorem discFn_cIface (t : Nat) (w : DW) : discFn pop props fr fnm isa "container.InterfaceType" [.ref t 81] w = some (.tuple [.str "iface", .int t], w) := rfl
+theorem discFn_cFuncName (i : Int) (w : DW) : discFn pop props fr fnm isa "container.FuncName" [.tuple [.str "tagval", .int i]] w =
+    some (.tuple [.str "funcName", .int i], w) := rfl
+theorem discFn_cFuncRes (i r : Int) (w : DW) : discFn pop props fr fnm isa "container.FuncNameAndResult" [.tuple [.str "tagval", .int i], .int r] w =
+    some (.tuple [.str "funcRes", .int i, .int r], w) := rfl
+theorem discFn_cOr (opts : List Val) (w : DW) : discFn pop props fr fnm isa "container.Or" [.list opts] w = some (.tuple [.str "or", .list opts], w) := rfl
+theorem discFn_cOrNil (w : DW) : discFn pop props fr fnm isa "container.Or" [.nil] w = some (.tuple [.str "or", .list []], w) := rfl
+theorem discFn_getMetas1 (opt : Val) (w : DW) : discFn pop props fr fnm isa "self.Registry.GetMetas" [opt] w =
+    (typeMeaning opt).map (fun f => (.list ((pop.filter f).map (fun p => .ref p.id 0)), w)) := rfl
+theorem discFn_getMetas2 (opt fopt : Val) (w : DW) : discFn pop props fr fnm isa "self.Registry.GetMetas" [opt, fopt] w =
+    (match typeMeaning opt, funcMeaning fr fnm fopt with
+     | some f, some g => some (.list ((pop.filter (fun p => f p && g p)).map (fun p => .ref p.id 0)), w)
+     | _, _ => none) := rfl
+theorem discFn_byName (i : Int) (w : DW) : discFn pop props fr fnm isa "self.Registry.GetMetaByName" [.tuple [.str "tagval", .int i]] w =
+    some (encMetaD (props.getD i.toNat .dflt).byName, w) := rfl
+theorem discFn_Args (i : Nat) (w : DW) : discFn pop props fr fnm isa ".Args" [.ref i 20] w = some (.ref i 22, w) := rfl
+theorem discFn_Find (i : Nat) (w : DW) : discFn pop props fr fnm isa ".Find" [.ref i 22, .str "returns"] w =
+    some (match (props.getD i .dflt).returns with
+          | none => .tuple [.nil, .bool false]
+          | some rs => .tuple [.list (rs.map (fun (r : Nat) => Val.int r)), .bool true], w) := rfl
+theorem discFn_Injects (i : Nat) (w : DW) : discFn pop props fr fnm isa ".Injects" [.ref i 20] w = some (encInj (w.getD i []), w) := rfl
+theorem discFn_setInjects (i : Nat) (vs : List Val) (w : DW) : discFn pop props fr fnm isa ".set:Injects" [.ref i 20, .list vs] w =
+    some (.tuple [], w.set i (decInj vs)) := rfl
+theorem discFn_append (a : List Val) (v : Val) (w : DW) : discFn pop props fr fnm isa "append" [.list a, v] w = some (.list (a ++ [v]), w) := rfl
+theorem discFn_appendNil (v : Val) (w : DW) : discFn pop props fr fnm isa "append" [.nil, v] w = some (.list [v], w) := rfl
+theorem discFn_appendSpread (a b : List Val) (w : DW) : discFn pop props fr fnm isa "append..." [.list a, .list b] w = some (.list (a ++ b), w) := rfl
+end eqs
+
 end Ioc.Sem
